@@ -499,6 +499,86 @@ def run(chk):
                 chk.ob("C07-D9.norm", f.key, "`%s` @%d" % (txt(q)[:60], q.get("l", 0)), replaces_zero, f.loc(q),
                        "" if replaces_zero else "0/0 = NaN fails this test: with an identically zero output every point is refined whatever the tolerance",
                        "getNormalization() never returns zero, or the test is written so that NaN counts as small")
+    # the Sequence and Global grids build the per-output maxima in a local vector (initialised with zeros) inside the refinement routine itself
+    for f in gridfns:
+        if f.cls not in ("TasGrid::GridSequence", "TasGrid::GridGlobal") or f.d.get("islambda"):
+            continue
+        loc = {v["did"]: v for v in f.locals().values() if "did" in v}
+        maxima = set()
+        for did, v in loc.items():
+            if v.get("t", "").startswith("std::vector<double") and v.get("c"):
+                ctor = next((q for q in [strip(v["c"][0])] + list(walk(v["c"][0])) if q is not None and q.get("k") in ("CXXConstructExpr", "CXXTemporaryObjectExpr")), None)
+                args = [c for c in (ctor or {}).get("c", []) if isinstance(c, dict)]
+                if len(args) >= 2 and txt(strip(args[1])) in ("0.0", "0", "0."):
+                    maxima.add(did)
+        if not maxima:
+            continue
+        divs = []
+        for q in f.walk():
+            if q.get("k") == "BinaryOperator" and q.get("op") == "/":
+                den = [x for x in [q["c"][1]] + list(walk(q["c"][1])) if x.get("k") == "DeclRefExpr" and x.get("did") in maxima]
+                if den:
+                    divs.append((q, den[0]["did"]))
+        if not divs:
+            continue
+        from tsg.typestate import must_pass_before as _mpb
+        # a statement that replaces zero entries: if (n == 0.0) n = <non-zero>, n an element of the vector or the variable of a range-for over it
+        fixers = {}
+        for a in f.walk():
+            if a.get("k") != "IfStmt" or a.get("cond") is None or a.get("then") is None:
+                continue
+            ct = txt(strip(a["cond"])).replace(" ", "")
+            if not (ct.endswith("==0.0") or ct.endswith("==0") or ct.endswith("<=0.0")):
+                continue
+            if not any(x.get("k") == "BinaryOperator" and x.get("op") == "=" for x in [a["then"]] + list(walk(a["then"]))):
+                continue
+            for did in maxima:
+                direct = any(x.get("k") == "DeclRefExpr" and x.get("did") == did for x in walk(a["cond"]))
+                viaranged = any(r.get("k") == "CXXForRangeStmt" and any(x.get("k") == "DeclRefExpr" and x.get("did") == did for x in walk(r.get("range") or {})) and
+                                any(x is a for x in walk(r)) for r in f.walk())
+                if direct or viaranged:
+                    fixers.setdefault(did, []).append(a)
+        def nan_matters(q):
+            """the quotient (NaN for 0/0) decides something: it seeds a running maximum (`m = q; ... if (m < v) m = v;` never replaces a NaN m),
+            or it is the operand of a `<=` / `<` test, which a NaN fails.  A NaN that is only ever the right operand of `m < v` is skipped by the maximum."""
+            par = f.parent.get(q.get("id"))
+            while par is not None and par.get("k") in ("ParenExpr", "ImplicitCastExpr", "CStyleCastExpr"):
+                par = f.parent.get(par.get("id"))
+            if par is None:
+                return False
+            tgt = None
+            if par.get("k") == "VarDecl":
+                tgt = par.get("did")
+            elif par.get("k") == "BinaryOperator" and par.get("op") == "=":
+                l = strip(par["c"][0])
+                tgt = l.get("did") if l is not None and l.get("k") == "DeclRefExpr" else None
+            elif par.get("k") == "BinaryOperator" and par.get("op") in ("<=", "<") and any(x is q for x in [strip(par["c"][0])] + list(walk(par["c"][0]))):
+                return True
+            if tgt is None:
+                return False
+            for a in f.walk():
+                if a.get("k") == "IfStmt" and a.get("cond") is not None:
+                    c_ = strip(a["cond"])
+                    if c_ is not None and c_.get("k") == "BinaryOperator" and c_.get("op") in ("<", "<=") and (strip(c_["c"][0]) or {}).get("did") == tgt and \
+                            any(x.get("k") == "BinaryOperator" and x.get("op") == "=" and (strip(x["c"][0]) or {}).get("did") == tgt for x in walk(a.get("then") or {})):
+                        return True
+            return False
+        for q, did in divs:
+            if not nan_matters(q):
+                continue
+            nnorm += 1
+            chk.saw(f)
+            hs = [x for a in fixers.get(did, []) for x in [a["cond"]] + list(walk(a["cond"]))]
+            # the fixer sits in a loop over the vector: its loop header stands for it (an empty vector has nothing to divide by)
+            for a in fixers.get(did, []):
+                for anc in f.ancestors(a):
+                    hdr = anc.get("cond") if anc.get("k") == "ForStmt" else anc.get("range") if anc.get("k") == "CXXForRangeStmt" else None
+                    if hdr is not None:
+                        hs += [hdr] + list(walk(hdr))
+            ok = bool(hs) and bool(_mpb(f, q, lambda n_, hs=hs: any(x is n_ for x in hs)))
+            chk.ob("C07-D9.norm", f.key, "`%s` @%d" % (txt(q)[:60], q.get("l", 0)), ok, f.loc(q),
+                   "" if ok else "the per-output maximum `%s` starts at zero and stays zero for an identically zero output: 0/0 = NaN enters the comparison or the running maximum "
+                   "over the outputs and decides the refinement" % loc[did].get("name"), "zero maxima replaced before the division")
     chk.floor("C07-D9.norm", nnorm, 2, "NaN-failing surplus tests")
 
     # ------------------------------------------------------------------ D8 a validated selection parameter is consumed on every branch
